@@ -75,7 +75,7 @@ Proof.
   induction recs as [|[k t] r IH]; intros w s; cbn [update_some writes_of flat_map count_grounded count_travelled count_flights fold_right].
   - cbn [fst snd]. rewrite app_nil_r. split; [reflexivity|]. split; [lia|]. split; lia.
   - cbn [fst snd]. fold (U t). destruct (U t) as [wt c] eqn:EU. cbn [fst snd].
-    destruct (IH (match wt with Some t' => w ++ [(k, t')] | None => w end) (add_contrib s c)) as (A & B & C & D).
+    destruct (IH (match wt with Some t' => w ++ [(k, t')] | None => w end) (add_contrib s (shard_of k) c)) as (A & B & C & D).
     fold (writes_of r) (count_grounded r) (count_travelled r) (count_flights r).
     rewrite A, B, C, D. unfold add_contrib. cbn [us_grounded us_travellers us_flights]. unfold b2z.
     split; [destruct wt; [rewrite <- app_assoc; reflexivity|reflexivity]|].
@@ -234,7 +234,7 @@ Proof.
         rewrite tget_writes_of by exact Hndp;
         rewrite (tget_perm _ _ k Hndp Hperm);
         unfold upd_record, U; destruct (tget (e_table e) k) as [t|]; cbn [option_map]; [destruct (fst (update_traveller t p share now)); reflexivity|reflexivity]
-      | cbn [e_admin a_grounded a_params];
+      | cbn [e_admin a_grounded a_params finish_stats us_grounded us_travellers us_flights us_share];
         rewrite S1, S2, S3, S4;
         unfold count_grounded, count_travelled, count_flights;
         rewrite (count_perm _ _ _ Hperm), (count_perm (fun kt => match c_dist (snd (U p share now (snd kt))) with Some _ => 1 | None => 0 end) _ _ Hperm),
@@ -264,7 +264,7 @@ Proof.
         rewrite tget_writes_of by exact Hndp;
         rewrite (tget_perm _ _ k Hndp Hperm);
         unfold upd_record, U; destruct (tget (e_table e) k) as [t|]; cbn [option_map]; [destruct (fst (update_traveller t p share now)); reflexivity|reflexivity]
-      | cbn [e_admin a_grounded a_params];
+      | cbn [e_admin a_grounded a_params finish_stats us_grounded us_travellers us_flights us_share];
         rewrite S1, S2, S3, S4;
         unfold count_grounded, count_travelled, count_flights;
         rewrite (count_perm _ _ _ Hperm), (count_perm (fun kt => match c_dist (snd (U p share now (snd kt))) with Some _ => 1 | None => 0 end) _ _ Hperm),
@@ -318,23 +318,251 @@ Proof.
     repeat split; congruence.
 Qed.
 
-(** under commutative and associative addition the distance total is order-independent as well *)
-Lemma merge_distance_perm (Hc : forall a b : K N, kadd N a b = kadd N b a)
-  (Ha : forall a b c : K N, kadd N a (kadd N b c) = kadd N (kadd N a b) c)
-  (rs rs' : list (table * ustats N)) : Permutation rs rs' -> forall ut : ustats N,
-  us_distance (fold_left (fun ut wr => merge_stats ut (snd wr)) rs ut) =
-  us_distance (fold_left (fun ut wr => merge_stats ut (snd wr)) rs' ut).
+End Independence.
+
+(** ---- the distance total: per-prefix totals, taken from the one worker that owns the prefix and added
+    in prefix order, so that the result does not depend on the thread setting (no laws of addition
+    needed: it is the same computation for every setting) ---- *)
+Section Distance.
+Context {N : NumOps}.
+Local Notation K := (K N).
+Local Notation table := (table N).
+Variables (p : params N) (share : K) (now : Z).
+
+(** the sequential sum of yesterday's distances over the records of shard [s], in table order, from [acc] *)
+Fixpoint shard_sum (s : Z) (recs : table) (acc : K) : K :=
+  match recs with
+  | [] => acc
+  | (k, t) :: r =>
+      shard_sum s r (if shard_of k =? s
+                     then match c_dist (snd (update_traveller t p share now)) with Some (d, _) => kadd N acc d | None => acc end
+                     else acc)
+  end.
+
+Lemma bump_length (l : list K) i d : length (bump l i d) = length l.
 Proof.
-  assert (G : forall (l0 : list (table * ustats N)) (u1 u2 : ustats N), us_distance u1 = us_distance u2 ->
-      us_distance (fold_left (fun ut wr => merge_stats ut (snd wr)) l0 u1) =
-      us_distance (fold_left (fun ut wr => merge_stats ut (snd wr)) l0 u2)).
-  { induction l0 as [|w r IHr]; intros u1 u2 E; cbn [fold_left]; [exact E|].
-    apply IHr. unfold merge_stats. cbn [us_distance]. congruence. }
-  induction 1 as [|x l l' _ IH|x y l|l1 l2 l3 _ IH1 _ IH2]; intros ut; cbn [fold_left].
-  - reflexivity.
-  - apply IH.
-  - apply G. unfold merge_stats. cbn [us_distance]. rewrite <- !Ha. f_equal. apply Hc.
-  - rewrite IH1. apply IH2.
+  unfold bump. rewrite app_length. rewrite <- (firstn_skipn i l) at 3. rewrite app_length. f_equal.
+  destruct (skipn i l); reflexivity.
 Qed.
 
-End Independence.
+Lemma nth_bump (l : list K) i j d : (i < length l)%nat ->
+  nth j (bump l i d) (k0 N) = if Nat.eqb j i then kadd N (nth i l (k0 N)) d else nth j l (k0 N).
+Proof.
+  intros Hi. unfold bump.
+  assert (Hf : length (firstn i l) = i) by (apply firstn_length_le; lia).
+  destruct (skipn i l) as [|v r] eqn:Es.
+  { apply (f_equal (@length _)) in Es. rewrite skipn_length in Es. cbn in Es. lia. }
+  assert (Ev : nth i l (k0 N) = v).
+  { rewrite <- (firstn_skipn i l) at 1. rewrite app_nth2 by lia. rewrite Hf, Nat.sub_diag, Es. reflexivity. }
+  destruct (Nat.eqb_spec j i) as [->|Hne].
+  - rewrite app_nth2 by lia. rewrite Hf, Nat.sub_diag. cbn [nth]. rewrite Ev. reflexivity.
+  - rewrite <- (firstn_skipn i l) at 2. rewrite Es.
+    destruct (Nat.lt_ge_cases j i) as [Hlt|Hge].
+    + rewrite !app_nth1 by lia. reflexivity.
+    + rewrite !app_nth2 by lia. rewrite Hf. destruct (j - i)%nat as [|m] eqn:Em; [lia|]. reflexivity.
+Qed.
+
+(** one worker: the per-prefix totals after its records *)
+Lemma update_some_pdist recs : forall (w : table) (s0 : ustats N),
+  length (us_pdist s0) = NShards ->
+  (forall k t, In (k, t) recs -> 0 <= shard_of k < Z.of_nat NShards) ->
+  length (us_pdist (snd (update_some recs p share now w s0))) = NShards /\
+  forall j, (j < NShards)%nat ->
+    nth j (us_pdist (snd (update_some recs p share now w s0))) (k0 N) =
+    shard_sum (Z.of_nat j) recs (nth j (us_pdist s0) (k0 N)).
+Proof.
+  induction recs as [|[k t] r IH]; intros w s0 Hl Hr; cbn [update_some shard_sum].
+  - cbn [snd]. split; [exact Hl|reflexivity].
+  - destruct (update_traveller t p share now) as [wt c] eqn:EU. cbn [snd].
+    pose proof (Hr k t (or_introl eq_refl)) as Hk.
+    set (s1 := add_contrib s0 (shard_of k) c).
+    assert (Hl1 : length (us_pdist s1) = NShards).
+    { unfold s1, add_contrib. cbn [us_pdist]. destruct (c_dist c) as [[d f]|]; [rewrite bump_length|]; exact Hl. }
+    destruct (IH (match wt with Some t' => w ++ [(k, t')] | None => w end) s1 Hl1 ltac:(intros k2 t2 H; apply (Hr k2 t2); right; exact H)) as [L Hn].
+    split; [exact L|]. intros j Hj. rewrite (Hn j Hj). f_equal.
+    unfold s1, add_contrib. cbn [us_pdist].
+    destruct (c_dist c) as [[d f]|].
+    + rewrite nth_bump by (rewrite Hl; lia).
+      destruct (Z.eqb_spec (shard_of k) (Z.of_nat j)) as [E|E].
+      * replace (Z.to_nat (shard_of k)) with j by lia. rewrite Nat.eqb_refl. reflexivity.
+      * destruct (Nat.eqb_spec j (Z.to_nat (shard_of k))) as [E2|_]; [lia|reflexivity].
+    + destruct (shard_of k =? Z.of_nat j); reflexivity.
+Qed.
+
+(** records outside the shard do not matter *)
+Lemma shard_sum_filter s (f : Z * traveller N -> bool) recs : forall acc,
+  (forall k t, In (k, t) recs -> shard_of k = s -> f (k, t) = true) ->
+  shard_sum s (filter f recs) acc = shard_sum s recs acc.
+Proof.
+  induction recs as [|[k t] r IH]; intros acc H; cbn [filter shard_sum]; [reflexivity|].
+  destruct (f (k, t)) eqn:Ef.
+  - cbn [shard_sum]. apply IH. intros k2 t2 Hin. apply (H k2 t2). right. exact Hin.
+  - destruct (Z.eqb_spec (shard_of k) s) as [E|E].
+    + rewrite (H k t (or_introl eq_refl) E) in Ef. discriminate.
+    + apply IH. intros k2 t2 Hin. apply (H k2 t2). right. exact Hin.
+Qed.
+
+Lemma shard_sum_none s recs : forall acc,
+  (forall k t, In (k, t) recs -> shard_of k <> s) -> shard_sum s recs acc = acc.
+Proof.
+  induction recs as [|[k t] r IH]; intros acc H; cbn [shard_sum]; [reflexivity|].
+  destruct (Z.eqb_spec (shard_of k) s) as [E|E]; [exfalso; apply (H k t (or_introl eq_refl) E)|].
+  apply IH. intros k2 t2 Hin. apply (H k2 t2). right. exact Hin.
+Qed.
+
+Definition norm0 (v : K) : K := if keqb N v (k0 N) then k0 N else v.
+Definition total_of (tb : table) (j : nat) : K := shard_sum (Z.of_nat j) tb (k0 N).
+
+Lemma nth_map_combine (f : K * K -> K) (a b : list K) j : (j < length a)%nat -> length a = length b ->
+  nth j (map f (combine a b)) (k0 N) = f (nth j a (k0 N), nth j b (k0 N)).
+Proof.
+  revert b j. induction a as [|x a IH]; intros b j Hj Hl; [cbn in Hj; lia|].
+  destruct b as [|y b]; [discriminate|]. destruct j as [|j]; [reflexivity|].
+  cbn [combine map nth]. apply IH; cbn [length] in *; lia.
+Qed.
+
+Lemma merge_stats_pdist (ut el : ustats N) j : (j < NShards)%nat ->
+  length (us_pdist ut) = NShards -> length (us_pdist el) = NShards ->
+  length (us_pdist (merge_stats ut el)) = NShards /\
+  nth j (us_pdist (merge_stats ut el)) (k0 N) =
+    if keqb N (nth j (us_pdist el) (k0 N)) (k0 N) then nth j (us_pdist ut) (k0 N) else nth j (us_pdist el) (k0 N).
+Proof.
+  intros Hj H1 H2. unfold merge_stats. cbn [us_pdist]. split.
+  - rewrite map_length, combine_length, H1, H2. apply Nat.min_id.
+  - rewrite nth_map_combine by (rewrite ?H1, ?H2; auto). reflexivity.
+Qed.
+
+Hypothesis zero_is_zero : keqb N (k0 N) (k0 N) = true.
+
+(** one worker's total for a shard: the shard's total when the shard is in its range, zero otherwise *)
+Lemma worker_pdist (r : Z * Z) (tb : table) j :
+  (forall k t, In (k, t) tb -> 0 <= shard_of k < Z.of_nat NShards) -> (j < NShards)%nat ->
+  let res := update_some (filter (fun kt => in_range r (fst kt)) tb) p share now [] stats0 in
+  length (us_pdist (snd res)) = NShards /\
+  nth j (us_pdist (snd res)) (k0 N) =
+    if (fst r <=? Z.of_nat j) && (Z.of_nat j <=? snd r) then total_of tb j else k0 N.
+Proof.
+  intros Hk Hj res.
+  destruct (update_some_pdist (filter (fun kt => in_range r (fst kt)) tb) [] stats0) as [L Hn].
+  { apply repeat_length. }
+  { intros k t Hin. apply filter_In in Hin. apply (Hk k t), Hin. }
+  split; [exact L|]. unfold res. rewrite (Hn j Hj).
+  assert (E0 : nth j (us_pdist (stats0 (N:=N))) (k0 N) = k0 N).
+  { cbn [stats0 us_pdist]. apply nth_repeat. }
+  rewrite E0. unfold total_of.
+  destruct ((fst r <=? Z.of_nat j) && (Z.of_nat j <=? snd r)) eqn:Er.
+  - apply shard_sum_filter. intros k t _ Es. cbn [fst]. unfold in_range. rewrite Es. exact Er.
+  - apply shard_sum_none. intros k t Hin Es. apply filter_In in Hin. destruct Hin as [_ Hin]. cbn [fst] in Hin.
+    unfold in_range in Hin. rewrite Es, Er in Hin. discriminate.
+Qed.
+
+(** merging the workers' results: a shard covered by at most one range ends up with that worker's total *)
+Lemma merged_pdist (tb : table) j :
+  (forall k t, In (k, t) tb -> 0 <= shard_of k < Z.of_nat NShards) -> (j < NShards)%nat ->
+  forall (rs : list (Z * Z)) (ut : ustats N), length (us_pdist ut) = NShards ->
+  (range_hits rs (Z.of_nat j) <= 1)%nat ->
+  let ut' := fold_left (fun ut wr => merge_stats ut (snd wr)) (worker_results p share now rs tb) ut in
+  length (us_pdist ut') = NShards /\
+  nth j (us_pdist ut') (k0 N) =
+    if Nat.eqb (range_hits rs (Z.of_nat j)) 0 then nth j (us_pdist ut) (k0 N)
+    else if keqb N (total_of tb j) (k0 N) then nth j (us_pdist ut) (k0 N) else total_of tb j.
+Proof.
+  intros Hk Hj. induction rs as [|r t IH]; intros ut Hl Hh; cbn [worker_results map fold_left].
+  - split; [exact Hl|reflexivity].
+  - destruct (worker_pdist r tb j Hk Hj) as [Lw Nw]. cbn zeta in Lw, Nw.
+    set (res := update_some (filter (fun kt => in_range r (fst kt)) tb) p share now [] stats0) in *.
+    destruct (merge_stats_pdist ut (snd res) j Hj Hl Lw) as [L1 N1].
+    unfold range_hits in Hh |- *. cbn [filter] in Hh |- *.
+    fold (worker_results p share now t tb).
+    destruct ((fst r <=? Z.of_nat j) && (Z.of_nat j <=? snd r)) eqn:Er.
+    + cbn [length] in Hh |- *.
+      assert (Ht0 : range_hits t (Z.of_nat j) = 0%nat) by (unfold range_hits; lia).
+      destruct (IH (merge_stats ut (snd res)) L1 ltac:(lia)) as [L2 N2]. split; [exact L2|].
+      rewrite N2, Ht0. cbn [Nat.eqb]. rewrite N1, Nw. reflexivity.
+    + destruct (IH (merge_stats ut (snd res)) L1 Hh) as [L2 N2]. split; [exact L2|].
+      rewrite N2, N1, Nw, zero_is_zero. reflexivity.
+Qed.
+
+Lemma merged_keeps_distance : forall (rs : list (table * ustats N)) (ut : ustats N),
+  us_distance (fold_left (fun ut wr => merge_stats ut (snd wr)) rs ut) = us_distance ut.
+Proof. induction rs as [|w r IH]; intros ut; cbn [fold_left]; [reflexivity|]. rewrite IH. reflexivity. Qed.
+
+(** the reported distance total: the per-shard totals (taken as zero when they compare equal to zero)
+    added in shard order - the thread setting does not occur in it *)
+Definition distance_total (tb : table) : K :=
+  fold_left (kadd N) (map (fun j => norm0 (total_of tb j)) (seq 0 NShards)) (k0 N).
+
+Theorem merged_distance th (tb : table) (ut0 : ustats N) :
+  0 <= th < 256 -> valid_threads th = true -> keys_ok tb ->
+  us_pdist ut0 = repeat (k0 N) NShards -> us_distance ut0 = k0 N ->
+  us_distance (finish_stats (fold_left (fun ut wr => merge_stats ut (snd wr))
+                                       (worker_results p share now (ranges_of_threads th) tb) ut0)) = distance_total tb.
+Proof.
+  intros Hth Hv [Hnd Hk] Hp0 Hd0.
+  assert (Hsh : forall k t, In (k, t) tb -> 0 <= shard_of k < Z.of_nat NShards).
+  { intros k t Hin. apply shard_range, Hk. apply (in_map fst _ _ Hin). }
+  set (ut' := fold_left _ _ ut0).
+  assert (Hall : forall j, (j < NShards)%nat -> range_hits (ranges_of_threads th) (Z.of_nat j) = 1%nat).
+  { intros j Hj. apply valid_threads_partition; [exact Hth|exact Hv|unfold NShards in Hj; lia]. }
+  assert (Hl0 : length (us_pdist ut0) = NShards) by (rewrite Hp0; apply repeat_length).
+  assert (HL : length (us_pdist ut') = NShards).
+  { destruct (merged_pdist tb 0 Hsh ltac:(unfold NShards; lia) (ranges_of_threads th) ut0 Hl0) as [L _].
+    { rewrite (Hall 0%nat ltac:(unfold NShards; lia)). lia. }
+    exact L. }
+  assert (Hpd : us_pdist ut' = map (fun j => norm0 (total_of tb j)) (seq 0 NShards)).
+  { apply (nth_ext _ _ (k0 N) (k0 N)).
+    - rewrite HL, map_length, seq_length. reflexivity.
+    - intros j Hj. rewrite HL in Hj.
+      destruct (merged_pdist tb j Hsh Hj (ranges_of_threads th) ut0 Hl0) as [_ Nn].
+      { rewrite (Hall j Hj). lia. }
+      fold ut' in Nn. rewrite Nn, (Hall j Hj). cbn [Nat.eqb].
+      rewrite Hp0, nth_repeat.
+      rewrite (nth_indep _ (k0 N) (norm0 (total_of tb 0))) by (rewrite map_length, seq_length; exact Hj).
+      rewrite (map_nth (fun j => norm0 (total_of tb j))), seq_nth by exact Hj. cbn [Nat.add].
+      unfold norm0. reflexivity. }
+  unfold finish_stats. cbn [us_distance]. rewrite Hpd. unfold ut'. rewrite merged_keeps_distance, Hd0. reflexivity.
+Qed.
+
+End Distance.
+
+
+Section DistanceAll.
+Context {N : NumOps}.
+
+(** the reported distance of the daily update, for every accepted thread setting *)
+Theorem update_all_distance (e : engine N) now fit :
+  now mod SecondsInDay = 0 ->
+  0 <= pThreads (a_params (e_admin e)) < 256 -> valid_threads (pThreads (a_params (e_admin e))) = true ->
+  keys_ok (e_table e) -> keqb N (k0 N) (k0 N) = true ->
+  us_distance (snd (fst (update_all e now fit))) =
+  distance_total (a_params (e_admin e)) (share_of e) now (e_table e).
+Proof.
+  intros Hnow Hth Hv Hk Hz. unfold update_all, share_of.
+  rewrite Hnow. cbn [Z.eqb negb].
+  set (p := a_params (e_admin e)) in *.
+  destruct (has_bit (pAlgo p) pamCorrectDailyTotal).
+  - destruct (pc_cycle (a_pc (e_admin e)) (pCorrWindow p)) as [pc1 pcv]. cbn [snd].
+    set (bf := if kltb N (kofZ N (pMinGrounded p)) (kofZ N (a_grounded (e_admin e))) then _ else _).
+    destruct (kltb N (k0 N) bf); cbn [fst snd];
+      apply (merged_distance p _ now Hz (pThreads p) (e_table e)); try assumption; reflexivity.
+  - set (bf := if kltb N (kofZ N (pMinGrounded p)) (kofZ N (a_grounded (e_admin e))) then _ else _).
+    destruct (kltb N (k0 N) bf); cbn [fst snd];
+      apply (merged_distance p _ now Hz (pThreads p) (e_table e)); try assumption; reflexivity.
+Qed.
+
+(** ... hence the same for any two parameter sets that differ in the thread setting only *)
+Lemma shard_sum_th_params (p1 p2 : params N) share now s (recs : table N) acc :
+  th_params p1 = th_params p2 -> shard_sum p1 share now s recs acc = shard_sum p2 share now s recs acc.
+Proof.
+  intros E. revert acc. induction recs as [|[k t] r IH]; intros acc; cbn [shard_sum]; [reflexivity|].
+  rewrite (update_traveller_th_params t p1 p2 share now E). apply IH.
+Qed.
+
+Theorem distance_total_ignores_threads (p1 p2 : params N) share now (tb : table N) :
+  th_params p1 = th_params p2 -> distance_total p1 share now tb = distance_total p2 share now tb.
+Proof.
+  intros E. unfold distance_total. f_equal. apply map_ext. intros j. unfold total_of.
+  rewrite (shard_sum_th_params p1 p2 share now _ tb _ E). reflexivity.
+Qed.
+
+End DistanceAll.
